@@ -190,7 +190,11 @@ func (x *Exec) callInvoke(fr *Frame, st *State, ins ssa.Instruction, cc *ssa.Cal
 		if t := recv.T; t != nil && t.kind == kApp && t.Op == "mk_"+sortIface {
 			if n, ok := isLitInt(t.Args[0]); ok && n.Int64() > 0 && int(n.Int64()) < len(typeTagTypes) {
 				dyn := typeTagTypes[n.Int64()]
-				if fn := x.w.Prog.LookupMethod(dyn, cc.Method.Pkg(), cc.Method.Name()); fn != nil {
+				var fn *ssa.Function
+				if types.NewMethodSet(dyn).Lookup(cc.Method.Pkg(), cc.Method.Name()) != nil {
+					fn = x.w.Prog.LookupMethod(dyn, cc.Method.Pkg(), cc.Method.Name())
+				}
+				if fn != nil {
 					recvV := Value{T: x.unbox(t.Args[1], dyn)}
 					res = x.callFunc(fr, st, ins, fn, append([]Value{recvV}, args...), nil, site)
 					x.monitors(fr, st, key, key, "after", all, res, sig, site)
@@ -1392,6 +1396,11 @@ func (x *Exec) verifyFunction(con *Contract) {
 	_, _, fr := x.runFunction(st, fn, args, clo, nil, con, "")
 	// postconditions at each return site
 	for _, r := range fr.rets {
+		// vacuity canary per return site: the assumptions collected on the way to it must be satisfiable (a contradictory
+		// invariant or callee contract would otherwise prove every postcondition there)
+		if !strings.Contains(","+con.Attrs["unreachableret"]+",", fmt.Sprintf(",%d,", r.ord)) {
+			x.obls = append(x.obls, &Obligation{Name: fmt.Sprintf("%s#vacuity[ret%d-reachable]", con.Func, r.ord), Func: con.Func, Kind: "canary", Facts: x.facts[:len(x.facts):len(x.facts)], PC: r.st.pc, Goal: False, Props: con.Props})
+		}
 		renv := x.specEnvFor(con, fn.Signature, fnTypesPkg(fn), args, r.st, entry)
 		bindResults(renv, con, fn.Signature, r.val)
 		for i, e := range con.Ensures {
